@@ -27,6 +27,9 @@ inductive PipeStep (p : Nat) (P : Pipe) : Pipe → Prop
   | cCtx (h1 : P.cpc = .sel) (h2 : P.parentCancelled = true) : PipeStep p P { P with cpc := .ret, ret := .ctx }
   | cCancel (h1 : P.cpc = .ret) : PipeStep p P { P with cpc := .exit, localCancelled := true }
   | pCancel (h1 : P.parentCancelled = false) : PipeStep p P { P with parentCancelled := true }
+  | rTrunc (u : Nat) (h1 : P.localCancelled = true) (h2 : u < P.unread)
+      (h3 : P.rpc = .sel ∨ ((P.rpc = .hold ∨ P.rpc = .write) ∧ P.cur ≤ u)) :
+      PipeStep p P { P with unread := u, scanErr := true, rpc := if P.rpc = .sel ∧ u = 0 then .fin else P.rpc }
 
 theorem step_np {s s' : State} {a : Action} (hs : step s a = some s') : s'.np = s.np ∧ s'.nw = s.nw := by
   cases a <;> simp only [step] at hs <;> (repeat' split at hs) <;>
@@ -173,6 +176,14 @@ theorem step_pipe {s s' : State} {a : Action} (hs : step s a = some s') (q : Nat
     · rename_i hg; injection hs with hs; subst hs
       by_cases hqp : q = p
       · subst hqp; right; rw [setPipe_pipe_same]; exact .pCancel hg.2
+      · left; exact setPipe_pipe_ne s _ hqp
+    · contradiction
+  | rTrunc p u =>
+    simp only [step] at hs
+    split at hs
+    · rename_i hg; injection hs with hs; subst hs
+      by_cases hqp : q = p
+      · subst hqp; right; rw [setPipe_pipe_same]; exact .rTrunc u hg.2.1 hg.2.2.1 hg.2.2.2
       · left; exact setPipe_pipe_ne s _ hqp
     · contradiction
 
